@@ -521,7 +521,7 @@ inductive IterOut
   | hint (n : Nat) (finished : Bool)
   | rowId (n : Nat)
   | skipped (n : Nat)
-  deriving Repr, Inhabited
+  deriving Repr, Inhabited, DecidableEq
 
 namespace ColIter
 
